@@ -42,6 +42,8 @@ def cases(ctx):
     # a long-lived anonymizer: tens of thousands of memo entries before the last requests
     for cfg in ipgen.configs(rng, ctx.pick(1, 4), fam=4, quick=ctx.quick):
         cfg["salter"] = "default"
+        cfg["B"] = rng.choice([None, 0, 8])
+        cfg["pp"] = rng.choice([None, None, ["10.0.0.0/8", "100.64.0.0/10"]])
         yield {"kind": "sampled", "cfg": cfg, "n": ctx.pick(9000, 40000), "aseed": rng.getrandbits(32), "long": True}
     for cfg in ipgen.configs(rng, ncfg, quick=ctx.quick):
         yield {"kind": "sampled", "cfg": cfg, "n": n4 if cfg["fam"] == 4 else n6,
